@@ -87,6 +87,12 @@ Theorem C15_lo_refusals : forall t n,
 Proof. exact lo_refusals. Qed.
 Print Assumptions C15_lo_refusals.
 
+(** Whether an operation is refused depends on the kind and the flags of the node only. *)
+Theorem C15_guard_local : forall n m o,
+  nkind n = nkind m -> nfl n = nfl m -> guard n o = guard m o.
+Proof. exact guard_local. Qed.
+Print Assumptions C15_guard_local.
+
 (** Restrictions can be added but never removed. *)
 Theorem C15_restrict_only_adds : forall f n,
   f_le (nfl n) (nfl (restrict f n)) = true /\ f_le f (nfl (restrict f n)) = true /\
